@@ -283,7 +283,7 @@ pub fn add_sections(rep: &mut Report, prop: &str, thorough: bool, conformant_onl
     #[cfg(feature = "crypto")]
     {
         let zoo = load_zoo();
-        for z in zoo.iter().filter(|z| z.format == KeyFormat::Pkcs8 && backend_supports(z.kind, z.format) && z.name.contains("_1") && (thorough || !matches!(z.kind, KeyKind::Rsa3072 | KeyKind::Rsa4096))) {
+        for z in zoo.iter().filter(|z| z.format == KeyFormat::Pkcs8 && backend_supports(z.kind, z.format) && z.name.contains("_1") && (thorough || !z.kind.is_slow())) {
             let algs: Vec<Alg> = if z.kind.is_rsa() { vec![Alg::RsaSha256, Alg::RsaSha384, Alg::RsaSha512] } else { vec![z.kind.natural_alg()] };
             for a in algs {
                 let kp = match rc_load(z, a) {
